@@ -7,6 +7,7 @@ class can be used to inspect the CCSDS header fields of the packet, but it does 
 parsed content from the data field. This generator is useful for debugging and passing off
 to other parsing functions.
 """
+import copy
 import datetime as dt
 import io
 import logging
@@ -248,6 +249,11 @@ class CCSDSPacket(dict):
     def __init__(self, *args, raw_data: bytes = b"", **kwargs):
         self.raw_data = RawPacketData(raw_data)
         super().__init__(*args, **kwargs)
+
+    def copy(self) -> 'CCSDSPacket':
+        """A shallow copy of the packet, with its raw data and parse position (`dict.copy` alone would
+        return a plain dictionary without them)."""
+        return copy.copy(self)
 
     @property
     def header(self) -> dict:
